@@ -237,6 +237,9 @@ PrecShapes(ss, ptype) ==
                 ELSE SubSeq(t, rank, rank)
   IN Flatten([q \in 1..Prod(BlockCounts(ss)) |-> Sel(BlockShape(ss, q - 1))])
 
+\* (updated_statistics_from_grad emits the statistics in the same order: `index += 1` per
+\* block and per preconditioned axis, i.e. statistic k belongs to the (block, axis) whose
+\* slot number is k; the replay checks this with the Gram matrices of the spec's blocks.)
 \* exponent_for_preconditioner
 Exponent(rank, ptype) == 2 * NumTrue(ShouldPrecondition(rank, ptype))
 
